@@ -4,15 +4,20 @@
 //   pre <top> <D|P>
 //       -> "<n> (<pathHex> <val>)*"            leaves of the default (D) / perturbed (P) object
 //   set <top> <D|P> <n> (<pathHex> <val>)* <prefixHex> <k> <optHex>*k <m> (<strHex> <res>)*m
+//       [<f> (<nameHex> <contentHex> <rowTok>)*f]
 //       -> "<status> <used,…|-> <n> <val>*n"    status = ok | exc:<kind> | pre-mismatch
-//      (the oracle section <m>… is for the Lean driver only and is ignored here)
+//      (the oracle section <m>… and the <rowTok>s are for the Lean driver only and are ignored
+//       here; the files <name> are created with <content> in a private temporary directory — the
+//       process's working directory — for the duration of the op, so that `@<name>` resolves)
 //
 // <top> is a struct of C18_TOP_STRUCTS (generated from params.cpp's instantiation list), an enum
-// with an ENUM_TABLE, or a leaf type name (bool, f64, i8…u64, ns, us, ms, s, min, h, vec).
+// with an ENUM_TABLE, or a leaf type name (bool, f64, i8…u64, ns, us, ms, s, min, h, vec), or
+// vff / vff2 = params::vec_from_file with expected_size −1 / 2 (D: value disengaged, P: [1.5, 2.5]).
 // The struct walkers come from the GENERATED header c18_tables.hpp (gen/gen_c18.py, every run).
 #include "proto.hpp"
 #include <alpaqa/config/config.hpp>
 #include <alpaqa/params/params.hpp>
+#include <alpaqa/params/vec-from-file.hpp>
 
 #include <alpaqa/inner/directions/panoc/anderson.hpp>
 #include <alpaqa/inner/directions/panoc/convex-newton.hpp>
@@ -30,6 +35,9 @@
 #include <alpaqa/inner/panoc-ocp.hpp>
 
 #include <chrono>
+#include <cstdlib>
+#include <fstream>
+#include <unistd.h>
 #include <optional>
 #include <span>
 #include <type_traits>
@@ -51,6 +59,30 @@ template <class V, class T>
 void c18_walk(V &v, const std::string &, T &t) {
     v.leaf(std::string{}, t);
 }
+
+// vec_from_file tops: the object with a fixed expected_size (set by the constructor below, as
+// driver/problem.cpp does with `vec_from_file x0{n}`); leaves: the optional value, expected_size
+using vff_t = alpaqa::params::vec_from_file<config_t>;
+template <long N>
+struct VffTop {
+    vff_t o{N};
+};
+template <class V, long N>
+void c18_walk(V &v, const std::string &, VffTop<N> &t) {
+    v.leaf(std::string{}, t.o.value);
+    // expected_size is fixed by the owner of the object, not a parameter: dumped, never perturbed
+    auto es = t.o.expected_size;
+    v.leaf(std::string{"expected_size"}, t.o.expected_size);
+    if constexpr (requires { v.idx; })
+        t.o.expected_size = es;
+}
+namespace alpaqa::params {
+template <long N>
+void c18_set_params(VffTop<N> &t, std::string_view prefix, std::span<const std::string_view> opts,
+                    std::optional<std::span<unsigned>> used) {
+    set_params(t.o, prefix, opts, used);
+}
+} // namespace alpaqa::params
 
 
 namespace {
@@ -90,6 +122,10 @@ std::string leaf_str(const T &x) {
         for (Eigen::Index i = 0; i < x.size(); ++i)
             s += (i ? "," : ":") + vp::f2h(x(i));
         return s;
+    } else if constexpr (std::is_same_v<T, std::optional<vec>>) {
+        // `on` = disengaged, `ov<k>:…` = engaged (every element is determinate here: emplace()
+        // gives size 0, and a stored vector was completely parsed)
+        return x ? "o" + leaf_str(*x) : std::string("on");
     } else if constexpr (std::is_integral_v<T>) {
         if constexpr (std::is_signed_v<T>)
             return "i" + std::to_string(static_cast<long long>(x));
@@ -124,6 +160,9 @@ struct Perturb {
         else if constexpr (std::is_same_v<T, vec>) {
             x.resize(2);
             x << 1.5, 2.5;
+        } else if constexpr (std::is_same_v<T, std::optional<vec>>) {
+            x.emplace(2);
+            *x << 1.5, 2.5;
         } else if constexpr (std::is_integral_v<T>)
             x = static_cast<T>(x + 7 + idx);
     }
@@ -134,6 +173,12 @@ std::string classify(const std::exception &e) {
     auto has = [&](const char *s) { return w.find(s) != std::string::npos; };
     if (has("cannot be indexed"))
         return "indexed";
+    if (w.rfind("Unable to open file", 0) == 0)
+        return "fileOpen";
+    if (w.rfind("Unable to read from file", 0) == 0)
+        return "fileRead";
+    if (w.rfind("Incorrect size", 0) == 0)
+        return "badSize";
     if (w.rfind("Invalid key", 0) == 0)
         return "invalidKey";
     if (w.rfind("Invalid suffix", 0) == 0)
@@ -187,15 +232,39 @@ std::string run(const std::string &op, vp::Toks &t) {
         s = hexdec(t.tok());
     std::vector<std::string_view> opts(store.begin(), store.end());
     std::vector<unsigned> used(k, 0);
+    // skip the oracle section, create the files of the file section
+    std::vector<std::string> files;
+    if (!t.done()) {
+        long m = t.nat();
+        for (long i = 0; i < 2 * m; ++i)
+            t.tok();
+    }
+    if (!t.done()) {
+        long f = t.nat();
+        for (long i = 0; i < f; ++i) {
+            std::string name = hexdec(t.tok()), content = hexdec(t.tok());
+            t.tok();
+            if (name.empty() || name.find('/') != std::string::npos)
+                return "bad-op";
+            std::ofstream(name, std::ios::binary) << content;
+            files.push_back(name);
+        }
+    }
     std::string status = "ok";
     try {
-        alpaqa::params::set_params(obj, prefix, std::span<const std::string_view>{opts},
-                                   std::optional<std::span<unsigned>>{std::span<unsigned>{used}});
+        if constexpr (requires { obj.o.expected_size; })
+            alpaqa::params::c18_set_params(obj, prefix, std::span<const std::string_view>{opts},
+                                           std::optional<std::span<unsigned>>{std::span<unsigned>{used}});
+        else
+            alpaqa::params::set_params(obj, prefix, std::span<const std::string_view>{opts},
+                                       std::optional<std::span<unsigned>>{std::span<unsigned>{used}});
     } catch (std::exception &e) {
         status = "exc:" + classify(e);
     } catch (...) {
         status = "exc:other";
     }
+    for (auto &fn : files)
+        ::unlink(fn.c_str());
     Dump post;
     c18_walk(post, "", obj);
     std::string s = status + ' ';
@@ -222,6 +291,17 @@ std::string run(const std::string &op, vp::Toks &t) {
 } // namespace
 
 int main() {
+    // private working directory for the `@file` options
+    char tmpl[] = "/tmp/c18_harness_XXXXXX";
+    const char *dir = ::mkdtemp(tmpl);
+    if (!dir || ::chdir(dir) != 0) {
+        std::cerr << "cannot create the temporary directory\n";
+        return 2;
+    }
+    struct Cleanup {
+        std::string d;
+        ~Cleanup() { ::chdir("/"); ::rmdir(d.c_str()); }
+    } cleanup{dir};
     std::string line;
     while (std::getline(std::cin, line)) {
         vp::Toks t(line);
@@ -254,6 +334,8 @@ int main() {
             else if (top == "min") out = run<std::chrono::minutes>(op, t);
             else if (top == "h") out = run<std::chrono::hours>(op, t);
             else if (top == "vec") out = run<vec>(op, t);
+            else if (top == "vff") out = run<VffTop<-1>>(op, t);
+            else if (top == "vff2") out = run<VffTop<2>>(op, t);
         } catch (std::exception &e) {
             out = std::string("harness-exception");
         }
